@@ -23,6 +23,7 @@ type op struct {
 	N     int    // number of values (bcast) / reads (read)
 	I     int    // subscriber index (read, drain, cancel)
 	Sub   []op   // group: issued together, without a settle in between
+	More  int    // sub: this many further channels in the SAME Subscribe call (same style and capacity, one shared context)
 }
 
 type bcCase struct {
@@ -33,6 +34,9 @@ type bcCase struct {
 func opStr(o op) string {
 	switch o.Kind {
 	case "sub":
+		if o.More > 0 {
+			return fmt.Sprintf("sub(%s,cap=%d,channels=%d)", o.Style, o.Cap, 1+o.More)
+		}
 		return fmt.Sprintf("sub(%s,cap=%d)", o.Style, o.Cap)
 	case "bcast":
 		return fmt.Sprintf("bcast(g%d x%d)", o.G, o.N)
@@ -70,6 +74,7 @@ type subscriber struct {
 	afterClose  bool // Subscribe was issued after Close
 	issuedAtSub int  // number of values issued when Subscribe was issued
 	stop        chan struct{}
+	group       []*subscriber // the subscribers of the same Subscribe call (including this one)
 }
 
 func (s *subscriber) got() []int {
@@ -85,6 +90,7 @@ type outcome struct {
 	concurrent                            bool // >= 2 broadcasters in one group
 	nsubs                                 int
 	mutexParked                           bool
+	multiSub                              bool // a Subscribe call with several channels
 }
 
 type harness struct {
@@ -172,24 +178,39 @@ func (h *harness) issue(o op) {
 	switch o.Kind {
 	case "sub":
 		ctx, cancel := context.WithCancel(context.Background())
-		s := &subscriber{ctx: ctx, cancel: cancel, ch: make(chan int, o.Cap), style: o.Style, stop: make(chan struct{}), afterClose: h.closeReturned, issuedAtSub: h.doneCount()}
-		h.subs = append(h.subs, s)
-		h.out.nsubs++
-		if o.Style == "prompt" {
-			h.wg.Add(1)
-			h.errs.Go(func() {
-				defer h.wg.Done()
-				for {
-					select {
-					case v := <-s.ch:
-						s.mu.Lock()
-						s.received = append(s.received, v)
-						s.mu.Unlock()
-					case <-s.stop:
-						return
+		_ = cancel // kept in the subscribers
+		var group []*subscriber
+		var chans []chan<- int
+		for k := 0; k <= o.More; k++ {
+			s := &subscriber{ctx: ctx, cancel: cancel, ch: make(chan int, o.Cap), style: o.Style, stop: make(chan struct{}), afterClose: h.closeReturned, issuedAtSub: h.doneCount()}
+			group = append(group, s)
+			chans = append(chans, s.ch)
+		}
+		for _, s := range group {
+			s.group = group
+		}
+		if o.More > 0 {
+			h.out.multiSub = true
+		}
+		for _, s := range group {
+			h.subs = append(h.subs, s)
+			h.out.nsubs++
+			if o.Style == "prompt" {
+				h.wg.Add(1)
+				h.errs.Go(func() {
+					defer h.wg.Done()
+					for {
+						select {
+						case v := <-s.ch:
+							s.mu.Lock()
+							s.received = append(s.received, v)
+							s.mu.Unlock()
+						case <-s.stop:
+							return
+						}
 					}
-				}
-			})
+				})
+			}
 		}
 		h.mu.Lock()
 		h.pendingSubs++
@@ -197,9 +218,11 @@ func (h *harness) issue(o op) {
 		h.wg.Add(1)
 		h.errs.Go(func() {
 			defer h.wg.Done()
-			h.b.Subscribe(ctx, s.ch)
+			h.b.Subscribe(ctx, chans...)
 			h.mu.Lock()
-			s.subscribed = true
+			for _, s := range group {
+				s.subscribed = true
+			}
 			h.pendingSubs--
 			h.mu.Unlock()
 		})
@@ -270,7 +293,9 @@ func (h *harness) issue(o op) {
 			h.out.departWhileBlocked = true
 		}
 		h.mu.Lock()
-		s.cancelled = true
+		for _, g := range s.group {
+			g.cancelled = true // the channels of one Subscribe call share its context
+		}
 		h.mu.Unlock()
 		s.cancel()
 	case "close":
@@ -570,7 +595,8 @@ func genOp(rt *rapid.T, inGroup bool) op {
 	k := rapid.IntRange(0, 15).Draw(rt, "kind")
 	switch {
 	case k <= 2:
-		return op{Kind: "sub", Style: rapid.SampledFrom([]string{"prompt", "prompt", "manual"}).Draw(rt, "style"), Cap: rapid.IntRange(0, 2).Draw(rt, "cap")}
+		return op{Kind: "sub", Style: rapid.SampledFrom([]string{"prompt", "prompt", "manual"}).Draw(rt, "style"), Cap: rapid.IntRange(0, 2).Draw(rt, "cap"),
+			More: rapid.SampledFrom([]int{0, 0, 0, 1, 2}).Draw(rt, "more")}
 	case k <= 8:
 		n := rapid.SampledFrom([]int{1, 1, 1, 2, 3, 6, 12, 14}).Draw(rt, "n")
 		return op{Kind: "bcast", G: rapid.IntRange(0, 2).Draw(rt, "g"), N: n}
@@ -624,7 +650,7 @@ func TestBroadcaster(t *testing.T) {
 			rt.Fatalf("C11 broadcaster violated: %v\ncase: %s", err, c)
 		}
 		var cls []string
-		for name, b := range map[string]bool{"stalled>buffer": out.stalledOver, "broadcast-blocked": out.blockedBcast, "depart-while-broadcast-blocked": out.departWhileBlocked,
+		for name, b := range map[string]bool{"subscribe-with-several-channels": out.multiSub, "stalled>buffer": out.stalledOver, "broadcast-blocked": out.blockedBcast, "depart-while-broadcast-blocked": out.departWhileBlocked,
 			"close-while-broadcast-blocked": out.closeWhileBlocked, "concurrent-broadcasters": out.concurrent, "mutex-parked-at-settle": out.mutexParked} {
 			if b {
 				cls = append(cls, name)
